@@ -4,7 +4,7 @@
     proved in [Rec/NamesProofs.v] or [Rec/ModesProofs.v] and followed by
     [Print Assumptions]. *)
 From Coq Require Import List String Ascii NArith Bool Permutation.
-From MV Require Import Rec.Names Rec.NamesProofs Rec.Modes Rec.ModesProofs.
+From MV Require Import Rec.Names Rec.NamesProofs Rec.Modes Rec.ModesProofs Rec.ReachProofs.
 Import ListNotations.
 Local Open Scope string_scope.
 
@@ -219,6 +219,65 @@ Theorem C03_discard_restores : forall (P : Type) (empty : P) u (s s1 : state P) 
 Proof. exact @discard_restores. Qed.
 Print Assumptions C03_discard_restores.
 
+(** ** Reachable directories: the premises above are invariants
+
+    [reach L c]: configuration [c] (a directory or an open handle) arises from the empty
+    directory by opens by name in any mode with any ids, any steps, forgetting the handle
+    at any time; [L] lists the names for which a record was created. *)
+
+(** Name-index coherence: the files of record [n] are named [std_name n (fidx f)], their
+    indices form an initial segment without repetition, file names are pairwise distinct;
+    hence the next patch name is free and a patch never exists without its base. *)
+Theorem C03_names_coherent : forall (P : Type) (empty : P) L (d : list (file P)) n,
+  reach empty L (CDir d) -> valid_name n = true ->
+  (forall f, In f (files_of n d) -> fname f = std_name n (fidx f)) /\
+  (forall f j, In f (files_of n d) -> (j <= fidx f)%N ->
+     exists g, In g (files_of n d) /\ fidx g = j /\ fname g = std_name n j) /\
+  NoDup (map fidx (files_of n d)) /\ NoDup (map fname d) /\
+  next_patch_free n d = true /\
+  (has_name (base_filename n) d = true \/ files_of n d = []).
+Proof. exact @names_coherent. Qed.
+Print Assumptions C03_names_coherent.
+
+(** Rows "committed base" / "patched" without the premise, for reachable directories. *)
+Theorem C03_mode_table_committed_reachable : forall (P : Type) (empty : P) L n (d : list (file P)) r u,
+  reach empty L (CDir d) -> valid_name n = true -> classify n d = SCBase \/ classify n d = SPatched ->
+  open_mode empty MR (ByName n) d r u = Opened (opened_ro n d) /\
+  open_mode empty MRp (ByName n) d r u = Opened (opened_new empty n d u) /\
+  open_mode empty MA (ByName n) d r u = Opened (opened_new empty n d u) /\
+  open_mode empty MW (ByName n) d r u = Opened (created empty n (others n d) r u) /\
+  open_mode empty MWm (ByName n) d r u = Refused EExists d /\
+  open_mode empty MX (ByName n) d r u = Refused EExists d.
+Proof. exact @table_committed_reachable. Qed.
+Print Assumptions C03_mode_table_committed_reachable.
+
+Theorem C03_w_replaces_all_reachable : forall (P : Type) (empty : P) L n (d : list (file P)) r u,
+  reach empty L (CDir d) -> valid_name n = true ->
+  exists s, open_mode empty MW (ByName n) d r u = Opened s /\
+    files_of n (dir_of s) = [fresh_base empty n r u] /\
+    others n (dir_of s) = others n d /\
+    view s = [empty] /\ writable s = true.
+Proof. exact @w_replaces_all_reachable. Qed.
+Print Assumptions C03_w_replaces_all_reachable.
+
+(** After arbitrary histories [list_records] lists exactly the created records, and
+    [find_files] is non-empty exactly for them. *)
+Theorem C03_list_records_reachable : forall (P : Type) (empty : P) L (d : list (file P)) n,
+  reach empty L (CDir d) -> (In n (list_records (map fname d)) <-> In n L).
+Proof. exact @list_records_reachable. Qed.
+Print Assumptions C03_list_records_reachable.
+
+Theorem C03_find_files_reachable : forall (P : Type) (empty : P) L (d : list (file P)) n,
+  reach empty L (CDir d) -> valid_name n = true -> (files_of n d <> [] <-> In n L).
+Proof. exact @find_files_reachable. Qed.
+Print Assumptions C03_find_files_reachable.
+
+(** A refused open leaves the very same directory (so [reach] needs no rule for it). *)
+Theorem C03_refused_same_dir : forall (P : Type) (empty : P) m n (d : list (file P)) r u e d',
+  open_mode empty m (ByName n) d r u = Refused e d' -> d' = d.
+Proof. exact @refused_same_dir. Qed.
+Print Assumptions C03_refused_same_dir.
+
 (** ** Non-vacuity *)
 
 Local Open Scope N_scope.
@@ -262,3 +321,22 @@ Example ex_x_refuses :
   open_mode (@nil string) MX (ByName "foo") ex_dir 0 0 = Refused EExists ex_dir /\
   open_mode (@nil string) MR (ByName "bar") ex_dir 0 0 = Refused ENotFound ex_dir.
 Proof. vm_compute. repeat split. Qed.
+
+(** A reachable directory: create "foo", commit, patch it, commit; create "fo". *)
+Example ex_reach : exists L (d : list (file (list string))),
+  reach [] L (CDir d) /\ classify "foo" d = SPatched /\ classify "fo" d = SCBase /\
+  list_records (map fname d) = ["foo"; "fo"]%string /\ (forall n, In n L <-> n = "fo" \/ n = "foo")%string.
+Proof.
+  pose proof (R_nil (@nil string)) as H.
+  pose proof (reach_open_result [] _ _ MW "foo"%string 1 10 H) as H1. vm_compute in H1.
+  pose proof (R_step [] _ _ (OWrite (cons "a"%string)) H1) as H2.
+  pose proof (R_drop [] _ _ (R_step [] _ _ (OClose true) H2)) as H3. vm_compute in H3.
+  pose proof (reach_open_result [] _ _ MRp "foo"%string 0 11 H3) as H4. vm_compute in H4.
+  pose proof (R_step [] _ _ (OWrite (cons "b"%string)) H4) as H5.
+  pose proof (R_drop [] _ _ (R_step [] _ _ (OClose true) H5)) as H6. vm_compute in H6.
+  pose proof (reach_open_result [] _ _ MX "fo"%string 3 30 H6) as H7. vm_compute in H7.
+  pose proof (R_drop [] _ _ (R_step [] _ _ (OClose true) H7)) as H8. vm_compute in H8.
+  eexists. eexists. split; [exact H8|].
+  split; [vm_compute; reflexivity|]. split; [vm_compute; reflexivity|]. split; [vm_compute; reflexivity|].
+  intros n. simpl. intuition (subst; auto).
+Qed.
